@@ -667,7 +667,9 @@ const descJS = ` + "`" + `
   var f64 = new Float64Array(1), u32 = new Uint32Array(f64.buffer);
   function num(x){ if (x !== x) return "nan"; f64[0] = x; return u32[1].toString(16) + ":" + u32[0].toString(16); }
   function str(v){ var a = []; for (var i = 0; i < v.length; i++) a.push(v.charCodeAt(i)); return "s(" + a.join(",") + ")"; }
-  function D(v){
+  function D(v, depth){
+    depth = depth || 0;
+    if (depth > 12) return "deep";
     if (v === null) return "null";
     if (v === undefined) return "undef";
     switch (typeof v) {
@@ -675,24 +677,24 @@ const descJS = ` + "`" + `
       case "number": return "n" + num(v);
       case "string": return str(v);
       case "function":
-        var r; try { r = D(v(20)); } catch (e) { r = "throws"; }
+        var r; try { r = D(v(20), depth + 1); } catch (e) { r = "throws"; }
         return "fn(" + r + ")";
       case "object":
         if (v.__internal_object__ !== undefined) return "wrapper{" + Object.keys(v).sort().join(",") + "}";
         var c = (Object.getPrototypeOf(v) === null) ? "noproto" : (v.constructor ? v.constructor.name : "noctor");
-        if (Array.isArray(v)) { var a = []; for (var i = 0; i < v.length; i++) a.push(D(v[i])); return "A[" + a.join(" ") + "]"; }
-        if (ArrayBuffer.isView(v)) { var a = []; for (var i = 0; i < v.length; i++) a.push(D(v[i])); return c + "[" + a.join(" ") + "]"; }
+        if (Array.isArray(v)) { var a = []; for (var i = 0; i < v.length; i++) a.push(D(v[i], depth + 1)); return "A[" + a.join(" ") + "]"; }
+        if (ArrayBuffer.isView(v)) { var a = []; for (var i = 0; i < v.length; i++) a.push(D(v[i], depth + 1)); return c + "[" + a.join(" ") + "]"; }
         if (v instanceof Date) return "Date(" + v.getTime() + ")";
         var ks = Object.keys(v).sort(), a = [];
-        for (var i = 0; i < ks.length; i++) a.push(str(ks[i]) + "=" + D(v[ks[i]]));
+        for (var i = 0; i < ks.length; i++) a.push(str(ks[i]) + "=" + D(v[ks[i]], depth + 1));
         return (c === "Object" ? "" : c) + "{" + a.join(" ") + "}";
     }
     return "other:" + typeof v;
   }
-  globalThis.describe = D;
-  globalThis["c11 \u044e-describe"] = D;
-  globalThis.describe2 = function(a, b){ return D(b); };
-  globalThis.C11Holder = function(v){ this.d = D(v); };
+  globalThis.describe = function(v){ return D(v, 0); };
+  globalThis["c11 \u044e-describe"] = globalThis.describe;
+  globalThis.describe2 = function(a, b){ return D(b, 0); };
+  globalThis.C11Holder = function(v){ this.d = D(v, 0); };
   globalThis.c11id = function(x){ return x; };
   globalThis.c11jsfn1 = function(x){ return x + 100; };
   globalThis.c11jsfn2 = function(x){ return x + 200; };
